@@ -972,6 +972,9 @@ def oracle(ctx, t, stats):
         want = t.x + float(t.scale[0]) * t.xi
         tol_ = max(1e-12, 4 * t.wtol) * (1.0 + float(np.max(np.abs(want))))
         stats["rw-proposal-checked"] = stats.get("rw-proposal-checked", 0) + 1
+        if xstar.shape == want.shape and np.all(np.isfinite(xstar)):
+            stats["margin:rw-proposal:max_dev_over_tol"] = max(stats.get("margin:rw-proposal:max_dev_over_tol", 0.0),
+                                                                float(np.max(np.abs(xstar - want))) / tol_)
         if xstar.shape != want.shape or not np.allclose(xstar, want, rtol=0, atol=tol_, equal_nan=True):
             fail("proposal-not-random-walk", [float(v) for v in want], [float(v) for v in xstar],
                  "the proposal evaluated is not x + scale*xi for the recorded draw (e.g. projected onto the support): the proposal "
@@ -997,6 +1000,14 @@ def oracle(ctx, t, stats):
         fail("decision", dem, a, f"accept bit differs from [log u <= min(0, log MH ratio of the proposal actually used)] (log u={ell!r}, log ratio={rr[0] if rr else None!r})")
     if dem is not None:
         stats["decisions"] = stats.get("decisions", 0) + 1
+        if rr is not None and ell != -math.inf and rr[0] == rr[0] and abs(rr[0]) != math.inf:
+            # distance of the uniform from the true threshold relative to the "too close to call" band (must be > 1)
+            thr_ = min(0.0, rr[0])
+            band_ = 1e-9 * (1.0 + abs(thr_)) + 1e-12 * getattr(t, "cond", 0.0)
+            stats["margin:decision:min_dist_over_band"] = min(stats.get("margin:decision:min_dist_over_band", math.inf), abs(ell - thr_) / band_)
+    if cache_true == cache_true and abs(cache_true) != math.inf and t.logd == t.logd and abs(t.logd) != math.inf:
+        stats["margin:stale-cache:max_dev_over_tol"] = max(stats.get("margin:stale-cache:max_dev_over_tol", 0.0),
+                                                            abs(t.logd - cache_true) / (1e-9 * max(abs(t.logd), abs(cache_true)) + 1e-9))
     # frame
     if a == 0:
         ok = np.array_equal(t.x1, t.x) and same_float(t.logd1, t.logd) and np.array_equal(t.grad1, t.grad, equal_nan=True)
